@@ -204,6 +204,8 @@ func runScatterCase(c ScatterCase) (vkit.Info, error) {
 	info.ClassIf(c.Cluster.PlacementRules, "placement-rules")
 	info.ClassIf(c.TiFlashLearners > 0, "tiflash-rule")
 	info.ClassIf(!c.Cluster.JointSupported, "nojoint-support")
+	info.ClassIf(len(c.Cluster.RejectLeader) > 0, "reject-leader-property")
+	info.ClassIf(repeatedRejectKey(&c.Cluster), "reject-leader-property:repeated-key")
 	hasFlash := false
 	for i := range c.Cluster.Stores {
 		hasFlash = hasFlash || isTiFlash(&c.Cluster.Stores[i])
